@@ -12,6 +12,7 @@ import Nuts.Driver.Common
 import Nuts.Driver.ListDS
 import Nuts.Driver.DB
 import Nuts.Driver.Codec
+import Nuts.Driver.Modes
 open Nuts Nuts.Driver
 
 inductive SuiteSt where
@@ -19,11 +20,13 @@ inductive SuiteSt where
   | listDS (s : ListSuite.St)
   | db (s : DBSuite.St)
   | codec
+  | modes (s : ModesSuite.St)
 
 def freshSuite (name : String) : SuiteSt :=
   match name with
   | "list-ds" => .listDS {}
   | "codec" => .codec
+  | "modes" => .modes {}
   | _ => if name.startsWith "db" then .db {} else .none
 
 def stepSuite (s : SuiteSt) (cmd impl : String) : SuiteSt × Verdict :=
@@ -32,6 +35,7 @@ def stepSuite (s : SuiteSt) (cmd impl : String) : SuiteSt × Verdict :=
   | .listDS st => let (st', v) := ListSuite.step st cmd impl; (.listDS st', v)
   | .db st => let (st', v) := DBSuite.step st cmd impl; (.db st', v)
   | .codec => (s, (CodecSuite.step () cmd impl).2)
+  | .modes st => let (st', v) := ModesSuite.step st cmd impl; (.modes st', v)
 
 def renderVerdict (lineno : Nat) (cmd impl : String) (v : Verdict) : String :=
   let m := if v.model == impl then "M" else "m"
